@@ -24,6 +24,7 @@ import (
 	"github.com/zenon-network/go-zenon/chain/nom"
 	"github.com/zenon-network/go-zenon/common/db"
 	"github.com/zenon-network/go-zenon/common/types"
+	"github.com/zenon-network/go-zenon/vm/embedded/definition"
 
 	"verif/harness/fw"
 	"verif/harness/simnet"
@@ -77,11 +78,14 @@ func c02Run(c *fw.C, caseID string) {
 	maxDepth := uint64(0)
 	P.TemplateHook = func(tpl *nom.AccountBlock) {
 		// some user blocks explicitly acknowledge an older momentum F−d
-		if types.IsEmbeddedAddress(tpl.Address) || w.R.Intn(4) != 0 {
+		if types.IsEmbeddedAddress(tpl.Address) || !tpl.MomentumAcknowledged.IsZero() || w.R.Intn(3) != 0 {
 			return
 		}
 		f := P.Height()
 		d := uint64(w.R.Intn(13))
+		if w.R.Intn(3) != 0 {
+			d = []uint64{1, 2, 4, 8}[w.R.Intn(4)] // the depths the trailing judges stand at
+		}
 		if d >= f {
 			return
 		}
@@ -109,9 +113,89 @@ func c02Run(c *fw.C, caseID string) {
 			c.SetAdd("ack_depths", fmt.Sprint(d))
 		}
 	}
-	P.OnBlock = func(b *nom.AccountBlock, _ db.Patch, err error) { onBlock(b, err) }
+	// trailing judges: T_d stays d momentums behind the producer. A user block that acknowledges momentum F−d is
+	// re-evaluated on T_d, whose FRONTIER is exactly the acknowledged momentum: acceptance and the resulting change
+	// set must be the same as on the producer (the outcome is a function of the ledger as of the acknowledged
+	// momentum, not of whatever the frontier happened to be)
+	depths := []uint64{1, 2, 4, 8}
+	trail := map[uint64]*simnet.Node{}
+	for _, d := range depths {
+		trail[d] = simnet.Open(fmt.Sprintf("T%d", d), fmt.Sprintf("%s/T%d", base, d), simnet.MockGenesis(), nil)
+		defer trail[d].Stop()
+	}
+	judgeFailed := false
+	judge := func(b *nom.AccountBlock, patch db.Patch) {
+		if judgeFailed || types.IsEmbeddedAddress(b.Address) {
+			return
+		}
+		d := P.Height() - b.MomentumAcknowledged.Height
+		T := trail[d]
+		if T == nil || T.Height() != b.MomentumAcknowledged.Height {
+			return
+		}
+		if T.Chain.GetFrontierAccountStore(b.Address).Identifier() != b.Previous() {
+			c.Count("trailing_judge_skipped_predecessor_not_yet_known", 1)
+			return
+		}
+		want := []byte(nil)
+		if patch != nil {
+			want = patch.Dump()
+		}
+		tx, err := T.Sup.ApplyBlock(simnet.CloneBlock(b))
+		c.Eval(1)
+		c.Count("blocks_re_evaluated_at_their_acknowledged_momentum", 1)
+		if err != nil {
+			judgeFailed = true
+			c.Violation("block-accepted-at-frontier-is-refused-as-of-its-acknowledged-momentum", map[string]interface{}{"err": err.Error(), "ack_depth": d, "block_type": b.BlockType, "address": b.Address.String(), "height": b.Height, "recent_actions": w.Log})
+			return
+		}
+		// compare what the two pools hold for the block (the pool appends its own bookkeeping to the change set)
+		ins := T.Chain.AcquireInsert("c02 judge")
+		ierr := T.Chain.AddAccountBlockTransaction(ins, tx)
+		ins.Unlock()
+		var got []byte
+		if gp := T.Chain.GetPatch(b.Address, b.Identifier()); gp != nil {
+			got = gp.Dump()
+		}
+		if ierr != nil || string(got) != string(want) {
+			judgeFailed = true
+			c.Violation("block-effect-at-frontier-differs-from-effect-as-of-its-acknowledged-momentum", map[string]interface{}{"ack_depth": d, "block_type": b.BlockType, "address": b.Address.String(), "height": b.Height, "insert_err": fmt.Sprint(ierr)})
+			return
+		}
+	}
+	P.OnBlock = func(b *nom.AccountBlock, patch db.Patch, err error) {
+		if err == nil {
+			judge(b, c02PoolPatch(P, b))
+		}
+		onBlock(b, err)
+	}
 	for i := 0; i < nMomentums; i++ {
 		w.Step(6)
+		// plasma edge: a fresh account gets its first plasma fused and its first funds at momentum ~10; a few momentums
+		// later it submits receives that acknowledge momentums from BEFORE the fusion took effect (it had no plasma
+		// then: must be refused) and from after it
+		if i == 10 {
+			_, _ = P.Send(g.User1, types.PlasmaContract, types.QsrTokenStandard, big.NewInt(20*g.Zexp), definition.ABIPlasma.PackMethodPanic(definition.FuseMethodName, g.User8.Address))
+			_, _ = P.Send(g.User1, g.User8.Address, types.ZnnTokenStandard, big.NewInt(5*g.Zexp), nil)
+			_, _ = P.Send(g.User1, g.User8.Address, types.ZnnTokenStandard, big.NewInt(6*g.Zexp), nil)
+		}
+		if i == 13 || i == 14 || i == 16 {
+			hs := w.Unreceived(g.User8.Address, 4)
+			for _, d := range []uint64{4, 2, 1, 0} {
+				if len(hs) == 0 {
+					break
+				}
+				m, _ := P.Chain.GetFrontierMomentumStore().GetMomentumByHeight(P.Height() - d)
+				if m == nil {
+					continue
+				}
+				_, err := P.Submit(&nom.AccountBlock{BlockType: nom.BlockTypeUserReceive, Address: g.User8.Address, FromBlockHash: hs[0], MomentumAcknowledged: m.Identifier()}, g.User8)
+				c.SetAdd("plasma_edge_receive_outcomes", fmt.Sprintf("ack_depth=%d accepted=%v", d, err == nil))
+				if err == nil {
+					hs = hs[1:]
+				}
+			}
+		}
 		if r.Intn(20) == 0 {
 			// a burst above the per-momentum limit: some blocks wait in the producer's pool for a later momentum,
 			// so the producer evaluated them at an older frontier than the follower will have when it applies them
@@ -127,6 +211,14 @@ func c02Run(c *fw.C, caseID string) {
 		if _, err := P.Produce(skip); err != nil {
 			c.Violation("producer-cannot-produce", map[string]interface{}{"height": P.Height() + 1, "err": err.Error(), "log": w.Log})
 			return
+		}
+		for _, d := range depths {
+			if T := trail[d]; P.Height() > d && T.Height() < P.Height()-d {
+				if idx, err := T.InsertChain(simnet.CloneBatch(P.Range(T.Height()+1, P.Height()-d))); err != nil {
+					c.Violation("follower-refuses-producers-momentum trailing", map[string]interface{}{"err": err.Error(), "index": idx, "depth": d})
+					return
+				}
+			}
 		}
 	}
 	P.OnBlock = nil
@@ -397,4 +489,9 @@ func c02AddrClass(a types.Address) string {
 		return "contract " + a.String()
 	}
 	return "user " + a.String()
+}
+
+// c02PoolPatch: the change set the producer's pool holds for a block it just accepted.
+func c02PoolPatch(n *simnet.Node, b *nom.AccountBlock) db.Patch {
+	return n.Chain.GetPatch(b.Address, b.Identifier())
 }
